@@ -26,7 +26,7 @@ type Universe struct {
 
 // name ids are 1-based ranks in sorted order.  Names starting with 'r' use
 // the reverse comparator when a comparator callback is installed.
-var defaultNames = []string{"a", "b\x00c", "r-rev", "z z", flipName}
+var defaultNames = []string{"", "a", "b\x00c", "r-rev", "z z", flipName} // "" is an ordinary name
 
 // flipName is only used by the comparator-flip burst (seq op "cmpflip"): no
 // other operation picks it, so its orientation can change during a history.
